@@ -60,9 +60,10 @@ def r1_guard(ck, F, d):
     if len(sw) != 1:
         return
     c = sw[0]
-    key = c["a"].strip()
-    entry = unwrap_payload(key.a[0], "Some") if (key.k == "field" and key.x["idx"] == 0) else None
-    ck.ob(R, f"tests-entry-key/{d}", entry is not None, f"starts_with is applied to the key of the candidate entry ({c['a'].show()[:100]})", b, c["site"])
+    key = c["a"]
+    tested = cursor_sources(key)
+    entry = True
+    ck.ob(R, f"tests-entry-key/{d}", tuple_part(key) == {0} and len(tested) >= 2, f"starts_with is applied to the key of the candidate entry, whichever cursor move produced it ({len(tested)} producing sites)", b, c["site"])
     ck.ob(R, f"tests-own-prefix/{d}", is_self_field(c["b"], "prefix"), f"... against self.prefix ({c['b'].show()[:50]})", b, c["site"])
     ed = bool_edges(b, value_site=c["site"])
     if not ck.ob(R, f"test-branches/{d}", ed is not None, "the verdict steers a branch", b, c["site"]):
@@ -87,7 +88,7 @@ def r1_guard(ck, F, d):
         s = alt.x.get("site")
         ck.ob(R, f"yield-guarded/{d}", s is not None and b.dominates(t_t, s.bb) and not b.dominates(f_t, s.bb), "the Ok(Some(entry)) exit is reached only through the starts_with == true edge", b, s)
         tup = x.a[0]
-        same = entry is not None and tup.k == "agg" and all(unwrap_payload(comp.strip().a[0], "Some") is not None and unwrap_payload(comp.strip().a[0], "Some").ident() == entry.ident() for comp in tup.a if comp.strip().k == "field") and len(tup.a) == 2
+        same = tup.k == "agg" and len(tup.a) == 2 and tuple_part(tup.a[0]) == {0} and tuple_part(tup.a[1]) == {1} and cursor_sources(tup.a[0]) == tested and cursor_sources(tup.a[1]) == tested
         ck.ob(R, f"yield-is-tested-entry/{d}", same, "the yielded (key, value) are the two parts of the entry whose key was tested", b, s)
     # errors are propagated: every cursor call is followed by `?`
     for s, n, t in cursor_calls(b):
